@@ -35,6 +35,9 @@ ASSUMPTIONS = [
 ]
 
 KNOWN_SWAP_SIG = "Circle/Ellipse.planar_moments_inertia:parallel-axis-swapped"
+# floating-point only: for a near-tie of the two LARGER axes the code's m = a^2(b^2-c^2)/(b^2(a^2-c^2)) rounds to
+# 1.0000000000000002 and scipy's ellipeinc/ellipkinc return nan (over the reals 0 <= m <= 1: C10.saM_range)
+NAN_SIG = "Ellipsoid.surface_area:nan:m-rounds-above-1:near-oblate-tie"
 PI = math.pi
 
 # --------------------------------------------------------------------------- independent numerics
@@ -314,7 +317,7 @@ def compare_2d_model(ctx, case, op, obs, r, ecc_tol):
     for k, nm in enumerate(names):
         tol_scale = abs(r[k]) if nm != "ecc" else None
         if nm == "ecc":
-            if abs(float(obs["ecc"]) - r[k]) > ecc_tol:
+            if not abs(float(obs["ecc"]) - r[k]) <= ecc_tol:
                 ctx.disagree(op + ":eccentricity", case, [float(obs["ecc"]), r[k]])
         elif not ctx.close_enough(obs[nm], r[k], tol_scale):
             ctx.disagree(op + ":" + nm, case, [obs[nm], r[k]])
@@ -382,7 +385,7 @@ def eval_ellipse(ctx, case):
     if not rec.calls:
         ctx.disagree("c10.ellipse.args:no-call", case, "implementation did not call ellipe")
     for (args, _v) in rec.calls:
-        if len(args) != 1 or abs(args[0] - arg) > 1e-9:
+        if len(args) != 1 or not abs(args[0] - arg) <= 1e-9:
             ctx.disagree("c10.ellipse.args:ellipe-argument", case, [args, arg])
             break
     E = float(special.ellipe(arg))
@@ -406,7 +409,7 @@ def eval_ellipse(ctx, case):
             if not ctx.close_enough(obs[nm], Pq, Pq):
                 ctx.fail("Ellipse.%s:value" % nm, "%s differs from the arc-length integral" % nm, case, [obs[nm], Pq, Pa])
     ecc = float(obs["ecc"])
-    if abs(ecc - e_exact) > ecc_tol or abs(ecc * ecc - float(e2_exact)) > 1e-9:
+    if not (abs(ecc - e_exact) <= ecc_tol and abs(ecc * ecc - float(e2_exact)) <= 1e-9):
         ctx.fail("Ellipse.eccentricity:value", "eccentricity differs from sqrt(max^2-min^2)/max", case, [ecc, e_exact])
     if not (0.0 <= ecc < 1.0):
         ctx.fail("Ellipse.eccentricity:range", "eccentricity outside [0,1)", case, ecc)
@@ -501,7 +504,7 @@ def eval_ellipsoid(ctx, case, idx=0):
             ctx.disagree("c10.ellipsoid.args:no-call", case, "implementation did not call ellipeinc/ellipkinc")
         m_tol = 1e-9 + 1e-15 * hi * hi / (hi * hi - lo * lo)
         for (args, _v) in recE.calls + recK.calls:
-            if len(args) != 2 or abs(args[0] - phi) > 1e-9 or abs(args[1] - mm) > m_tol:
+            if len(args) != 2 or not (abs(args[0] - phi) <= 1e-9 and abs(args[1] - mm) <= m_tol):
                 ctx.disagree("c10.ellipsoid.args:elliptic-arguments", case, [args, [phi, mm]])
                 break
         E = float(special.ellipeinc(phi, mm))
@@ -524,6 +527,17 @@ def eval_ellipsoid(ctx, case, idx=0):
     # ---- C
     q = ctx.driver.Q("c10.spec.ellipsoid", 1.0, a, b, c_, cen)
     check_inertia3(ctx, case, "Ellipsoid", obs, q, [a, b, c_])
+    if not math.isfinite(obs["surface"]):
+        m_impl = recE.calls[0][0][1] if recE.calls else float("nan")
+        if br and m_impl > 1.0 and mid < hi and rel_gap(hi, mid) <= 1e-13 and rel_gap(hi, lo) > 1e-13:
+            ctx.count("known:surface-nan-m-above-1")
+            ctx.fail(NAN_SIG, "Ellipsoid.surface_area (and iq) is nan: m rounds above 1 for a near-tie of the two "
+                     "larger semi-axes and scipy's incomplete elliptic integrals return nan", case,
+                     {"surface_area": obs["surface"], "iq": obs["iq"], "m": m_impl})
+        else:
+            ctx.fail("Ellipsoid.surface_area:not-finite", "surface area is not finite", case,
+                     {"surface_area": obs["surface"], "m": m_impl})
+        return  # iq = 36 pi V^2 / S^3 inherits the non-finite surface
     S, serr = surface_quad(a, b, c_)
     reliable = serr <= 1e-11 * S
     if reliable and idx % 10 == 0 and hi / lo <= 30.0:
@@ -596,6 +610,9 @@ WITNESSES = [
     {"cls": "Sphere", "axes": [1.0], "center": [2, 3, 5], "info": {"axes_kind": "witness", "centre_kind": "integer"}},
     {"cls": "Ellipsoid", "axes": [3.0, 2.0, 1.0], "center": [2, 3, 5], "info": {"axes_kind": "witness", "centre_kind": "integer"}},
     {"cls": "Ellipsoid", "axes": [1.0, 2.0, 3.0], "center": [0, 0, 0], "info": {"axes_kind": "witness", "centre_kind": "origin"}},
+    # witness of the nan finding (two larger axes 1 ulp apart)
+    {"cls": "Ellipsoid", "axes": [82.98250839490515, 318.4597855508135, 318.4597855508136], "center": [1, 2, 3],
+     "info": {"axes_kind": "witness-ulp-oblate", "centre_kind": "integer"}},
 ]
 
 INVALID = [
@@ -609,7 +626,7 @@ INVALID = [
 
 
 def run(ctx):
-    n = ctx.budget(1200, 20000)
+    n = ctx.budget(2500, 40000)
     for case in WITNESSES:
         ctx.count("kind:witness")
         ctx.case(case)
